@@ -33,11 +33,11 @@ TABLES = [
     ('T8d', 'get_enabled_defenses', ('C12',)),
     ('T8e', 'get_attack_surface', ('C12',)),
     ('T8f', 'update_attack_surface_add_nodes', ('C12',)),
-    ('T10', 'LanguageGraph._get_attacks_for_asset_type', ('C03', 'C02')),
+    ('T10', 'LanguageGraph._get_attacks_for_asset_type', ('C03', 'C02', 'C01', 'C06')),
     ('T11a', 'LanguageClassesFactory._generate_assets', ('C06',)),
     ('T11b', 'LanguageClassesFactory._generate_associations', ('C06',)),
     ('T11c', 'LanguageClassesFactory.get_association_by_signature', ('C06', 'C18')),
-    ('T12a', 'Model._validate_association', ('C06',)),
+    ('T12a', 'Model._validate_association', ('C06', 'C05')),
     ('T12b', 'Model.add_association', ('C06', 'C05')),
     ('T13', 'LanguageGraph._get_associations_for_asset_type', ('C15',)),
     ('T20', 'LanguageGraph.get_association_by_fields_and_assets', ('C15', 'C18')),
@@ -45,7 +45,7 @@ TABLES = [
     ('T18', 'AttackerAttachment.add_entry_point', ('C05', 'C07', 'C18')),
     ('T19', 'AttackerAttachment.remove_entry_point', ('C05',)),
     ('T14', 'AttackGraphNode.is_compromised_by', ('C11', 'C12')),
-    ('T15', 'Attacker.compromise', ('C11', 'C09')),
+    ('T15', 'Attacker.compromise', ('C11', 'C09', 'C10')),
     ('T16', 'Attacker.undo_compromise', ('C11', 'C09')),
 ]
 STRIP_COPIES = {'T10'}
